@@ -166,8 +166,11 @@ func genC20(t *rapid.T) any {
 				q.Items = append(q.Items, it)
 			case 3, 4, 5:
 				kind := "get"
-				if rapid.IntRange(0, 4).Draw(t, il+".insub") == 0 {
+				switch rapid.IntRange(0, 7).Draw(t, il+".insub") {
+				case 0:
 					kind = "getsub"
+				case 1, 2:
+					kind = "getroot" // GETVAR inside a sub query over a table of the enclosing document: one reading per row of it
 				}
 				q.Items = append(q.Items, C20Item{Kind: kind, Key: rapid.SampledFrom(c20AllKeys).Draw(t, il+".key"), Alias: fmt.Sprintf("g%d", i)})
 			default:
@@ -191,7 +194,7 @@ func genC20(t *rapid.T) any {
 						}
 					})
 				}
-				if it.Kind == "getsub" || it.Kind == "caseset" || usesRow {
+				if it.Kind == "getsub" || it.Kind == "getroot" || it.Kind == "caseset" || usesRow {
 					continue
 				}
 				items = append(items, it)
@@ -395,6 +398,8 @@ func (q *C20Query) sql() string {
 			parts = append(parts, "GETVAR("+sq.StrLit(it.Key)+") AS "+it.Alias)
 		case "getsub":
 			parts = append(parts, "(SELECT GETVAR("+sq.StrLit(it.Key)+") AS g FROM dual) AS "+it.Alias)
+		case "getroot":
+			parts = append(parts, "(SELECT GETVAR("+sq.StrLit(it.Key)+") AS g FROM `<-meta`) AS "+it.Alias)
 		default:
 			parts = append(parts, sq.Render(it.Val, nil)+" AS "+it.Alias)
 		}
@@ -476,7 +481,7 @@ func checkC20(c *C20Case) Result {
 			}
 			extra = append(extra, genql.WithConstants(consts))
 		}
-		built[i] = Build(map[string]any{"t": rows}, c.Queries[i].sql(), Opts{}, extra...)
+		built[i] = Build(map[string]any{"t": rows, "meta": []any{map[string]any{"z": 1.0}, map[string]any{"z": 2.0}}}, c.Queries[i].sql(), Opts{}, extra...)
 	}
 	if c.PreBuild {
 		for i := range c.Queries {
@@ -602,13 +607,16 @@ func checkC20(c *C20Case) Result {
 						}
 						model[it.Key] = v
 						writer[it.Key] = stamp{qi, ri}
-					case "get", "getsub":
+					case "get", "getsub", "getroot":
 						if w, ok := writer[it.Key]; ok && (w.q != qi || w.r != ri) {
 							crossRead = true
 						}
 						out[it.Alias] = model[it.Key]
 						if it.Kind == "getsub" {
 							out[it.Alias] = map[string]any{"g": model[it.Key]}
+						}
+						if it.Kind == "getroot" {
+							out[it.Alias] = []any{map[string]any{"g": model[it.Key]}, map[string]any{"g": model[it.Key]}}
 						}
 					default:
 						v, _ := sq.Eval(it.Val, row, env)
@@ -660,7 +668,7 @@ func checkC20(c *C20Case) Result {
 					cp[k] = v
 				}
 				for _, it := range q.Items {
-					if (it.Kind == "get" || it.Kind == "getsub") && it.Key == "kb" {
+					if (it.Kind == "get" || it.Kind == "getsub" || it.Kind == "getroot") && it.Key == "kb" {
 						cp[it.Alias] = c20Down(cp[it.Alias])
 					}
 				}
@@ -691,7 +699,7 @@ func checkC20(c *C20Case) Result {
 			switch it.Kind {
 			case "set":
 				sets++
-			case "get", "getsub":
+			case "get", "getsub", "getroot":
 				gets++
 			}
 		}
@@ -741,8 +749,21 @@ func init() {
 const c20BigBase = int64(1) << 53
 
 func c20Down(v any) any {
-	if n, ok := v.(int64); ok {
+	switch n := v.(type) {
+	case int64:
 		return float64(n - c20BigBase)
+	case []any:
+		out := make([]any, len(n))
+		for i, x := range n {
+			out[i] = c20Down(x)
+		}
+		return out
+	case map[string]any:
+		out := make(map[string]any, len(n))
+		for k, x := range n {
+			out[k] = c20Down(x)
+		}
+		return out
 	}
 	return v
 }
